@@ -476,6 +476,7 @@ func runC11(w *azWorld) {
 		perms  uint8
 		target string
 		ext    bool
+		banned bool
 	}
 	var parents []*parent
 	parents = append(parents, &parent{name: "master", key: w.lic.Master, master: true, valid: true})
@@ -517,6 +518,15 @@ func runC11(w *azWorld) {
 		p := parents[t.Choose(len(parents))]
 		ci := t.Choose(len(w.cl))
 		cl := w.cl[ci]
+		if p.ext && p.valid && !p.master && t.Chance(1, 6) {
+			// the extendable key is banned (or the ban lifted) with a real keyban request
+			world.Advance(c, time.Duration(t.Range(1, 50))*time.Microsecond)
+			if r, _ := world.Request(c, w.cl[0], "keyban", map[string]any{"secret": w.lic.Master, "target": p.key, "banned": !p.banned}); r != nil && r.Status == 200 {
+				p.banned = !p.banned
+				c.Logf("keyban %s banned=%v", p.name, p.banned)
+				c.Fault("key-ban-toggle")
+			}
+		}
 		typ := ""
 		for _, ch := range "rwslpexm?" {
 			if t.Chance(1, 3) {
@@ -589,6 +599,9 @@ func runC11(w *azWorld) {
 		c.Logf("c%d keygen parent=%s channel=%s type=%q ttl=%d -> ok=%v", ci, p.name, chanStr, typ, ttl, ok)
 		c.State(fmt.Sprintf("parent=%s type=%s chan=%s", strings.SplitN(p.name, "[", 2)[0], typ, shapeOf(chanLv)))
 		mustRefuse := !p.valid || badChan || (viaHTTP && !p.master) // the page only mints with a master key
+		if p.banned {
+			mustRefuse = true // a banned key is refused for every operation, extending it included
+		}
 		extSuffix := ""
 		if p.ext && !p.master {
 			// extension: the channel (an optional '#/' suffix aside) must be static and covered by the parent
